@@ -263,7 +263,10 @@ def dict_update(I, d, other):
         h.dord = z3.Store(h.dord, rid, fresh("ord_after_update", VArr))
         I.spec.on_write(I, "dict", d, None)
         return
-    raise OutsideSubset("dict.update with unsupported argument")
+    import os as _os
+    if _os.environ.get("PYVC_DBG_UPD"):
+        import sys as _sys; _sys.path.insert(0, "/tmp"); import dbg_hook; dbg_hook.dump(I, other)
+    raise OutsideSubset(f"dict.update with unsupported argument (tag={I.tag(other)}, kind={I.kind(other) if I.tag(other)=='ref' else None}, term={str(other)[:80]})")
 
 
 def set_add(I, s, x):
